@@ -59,6 +59,7 @@ type scheduler struct {
 	chanSeq int
 	steps   int
 	leaked  int
+	idleFires int
 }
 
 var theSched *scheduler
@@ -192,6 +193,16 @@ func (s *scheduler) run() runResult {
 				t.active = false
 				s.cur = nil
 				t.fire()
+				if len(s.runq) == 0 {
+					s.idleFires++
+					if s.idleFires > 2000 {
+						// only self-re-arming timers (tickers) are left: nothing will ever wake the harness
+						res = runResult{kind: "deadlock", msg: "only idle tickers left; harness goroutine blocked"}
+						break
+					}
+				} else {
+					s.idleFires = 0
+				}
 				continue
 			}
 			// deadlock: the main goroutine is blocked and nothing can run
